@@ -119,7 +119,18 @@ def rules(rep, m):
     r3.instance("cmb_random returns %s" % rv)
     rep.sample({"rule": "R-C16-3", "cmb_random": rv})
     mm = re.fullmatch(r"ldexp\(\(cmb_random_sfc64\(\) >> (\d+)\), -(\d+)\)", rv[0].replace("(double)", "")) if rv else None
-    if not mm or int(mm.group(1)) < 11 or 64 - int(mm.group(1)) != int(mm.group(2)):
+    unit_ok = bool(mm) and int(mm.group(1)) >= 11 and 64 - int(mm.group(1)) == int(mm.group(2))
+    if not unit_ok and rv:
+        # the same value as a product: (output >> s) * 2^-(64 - s), s possibly spelled 64 - 53, through a const local
+        cv = [ux.canon(kids(x)[0]).replace("(double)", "") for x in walk(ur.body) if x["kind"] == "ReturnStmt"]
+        m2 = re.fullmatch(r"\(\(cmb_random_sfc64\(\) >> \(?([\d \-+]+)\)?\) \* ([0-9.eE+\-]+)\)", cv[0]) if len(cv) == 1 else None
+        if m2 and re.fullmatch(r"[\d \-+]+", m2.group(1)):
+            sh = eval(m2.group(1))
+            try:
+                unit_ok = 11 <= sh < 64 and float(m2.group(2)) == 2.0 ** -(64 - sh)
+            except ValueError:
+                unit_ok = False
+    if not unit_ok:
         rep.finding(r3, ur.name, "unit-interval", "cmb_random returns %s: not provably in [0, 1) (needs >> s with s >= 11 and a "
                     "scale of 2^-(64-s))" % rv, where=m.rel(ur.where))
         r3.fail()
@@ -131,7 +142,7 @@ def rules(rep, m):
     idxs = [ax.canon(kids(x)[0]) for x in walk(als.body) if x["kind"] == "VarDecl" and x.get("name") == "idx" and kids(x)]
     rets = [ax.canon(kids(x)[0]) for x in walk(als.body) if x["kind"] == "ReturnStmt"]
     r3.instance("alias sample: idx = %s; returns %s" % (idxs, rets))
-    okal = idxs and re.fullmatch(r"floor\(\(%s->n \* ldexp\(.*\)\)\)" % ap, idxs[0]) is not None
+    okal = idxs and re.fullmatch(r"floor\(\(%s->n \* (ldexp\(.*\)|cmb_random\(\))\)\)" % ap, idxs[0]) is not None
     if okal and rets:
         okal = re.fullmatch(r"\(.* \? %s->alias\[.+\] : .+\)" % ap, rets[0]) is not None
         if not okal:
